@@ -5,14 +5,17 @@ from props import common as cm
 
 def run(tier):
     r = Run('C14', tier, level='other')
-    cm.run_kernels(r, cm.kernels('c_var2h'))
+    cm.run_kernels(r, cm.kernels('c_var2h', 'c_var2h#average'))
     from vf import child
     res = child.run('props.C14', 'monitors_child', r.prop, r.tier, r.seed)
     child.merge(r, res['recorder'])
     if res['rc'] != 0:
         r.broken.append('C14 monitors child failed (rc=%s) at %s: %s' % (res['rc'], res['progress'], res['stderr'][-1500:]))
-    r.explanation = ('proved (Engine C): memory safety, no integer overflow and termination of c_var2h for every series; '
-                     'bounded: each value is missing or the exact period average (exact rational oracle on enumerated series), pandas wrapper')
+    r.explanation = ('proved (Engine C): memory safety, no integer overflow and termination of c_var2h for every series; under the contract '
+                     'c_var2h#average (sorted stamps, hstart inside the data) every value but the last is missing or the exact period '
+                     'average / rainfall total of the interpolant (doubles read as reals, products compared structurally), and a missing '
+                     'period inside the data has an invalid interval touching it; bounded: the same clauses evaluated with exact rationals '
+                     'on enumerated series, the pandas wrapper (units, time zones)')
     return r.finish()
 
 
